@@ -115,63 +115,7 @@ func runC07(c *Ctx) {
 	// ------------------------------------------------------------ P1
 	c.Rule("C07.P1", "STALE-AFTER-REPLACE", "on no path is the same validator value used twice as the pre-image of a replacement (UpdateValidator(new, old), or a callee that replaces its parameter): the second replacement would discard the first one's effect — rewards or stake just booked vanish")
 	c.Min(10)
-	var fns []*ssa.Function
-	for _, p := range []string{"staking", "core/state", "core"} {
-		for _, fn := range w.FuncsIn(p) {
-			if !strings.HasSuffix(w.fileOf(fn.Pos()), "_test.go") {
-				fns = append(fns, fn)
-			}
-		}
-	}
-	sum := replaceSummary(w, upd, fns)
-	var sumNames []string
-	for fn, ps := range sum {
-		for i := range ps {
-			sumNames = append(sumNames, fmt.Sprintf("%s(param %d)", fname(fn), i))
-		}
-	}
-	sort.Strings(sumNames)
-	c.Note("functions that replace a parameter: %s", strings.Join(sumNames, ", "))
-	for _, fn := range fns {
-		type use struct {
-			ci  ssa.CallInstruction
-			pre ssa.Value
-		}
-		var uses []use
-		for _, ci := range callInstrs(fn) {
-			for _, pre := range preImages(ci, upd, sum) {
-				uses = append(uses, use{ci, stripConv(pre)})
-			}
-		}
-		if len(uses) == 0 {
-			continue
-		}
-		c.sawFunc(fname(fn))
-		for i, u := range uses {
-			c.sites++
-			stale := ""
-			for j, v := range uses {
-				if i == j && !inLoop(u.ci) {
-					continue
-				}
-				if u.pre != v.pre {
-					continue
-				}
-				if i == j {
-					// the same site in a loop with a loop-invariant pre-image
-					if reachesWithoutRedefinition(u.ci, u.ci, u.pre) && !sameBlockAfterDef(u.ci, u.pre) {
-						stale = "is replaced again by the same call on the next iteration"
-					}
-					continue
-				}
-				if reachesWithoutRedefinition(v.ci, u.ci, u.pre) {
-					stale = "was already replaced at " + w.Pos(v.ci.Pos()) + " (" + calleeName(v.ci) + ")"
-				}
-			}
-			key := fmt.Sprintf("%s#%s@%s", fname(fn), calleeName(u.ci), siteOrdinal(fn, u.ci, ""))
-			c.Check(key, u.ci.Pos(), stale == "", ifelse(stale == "", "the pre-image is replaced once on every path", "the validator record used here as pre-image "+stale+": this replacement installs a copy of the superseded record and discards what the first one booked"))
-		}
-	}
+	stalePreImages(c, w, upd, "this replacement installs a copy of the superseded record and discards what the first one booked")
 
 	// ------------------------------------------------------------ P2
 	c.Rule("C07.P2", "EXIT+EXHAUSTIVE", "teDeposit and teDelegationAdd (whose submission handlers debited the sender) on every return either applied the credit (UpdateValidator / UpdateDelegation) or refunded the transaction value to the sender, or run under a pre-V5 protocol version (historic behaviour); the submission and take-effect registries register the same actions")
@@ -274,6 +218,67 @@ func runC07(c *Ctx) {
 	c.Rule("C07.P4", "CONFINED+ALWAYS-WITH", "every AddBalance/SubBalance/SetBalance call site outside core/vm and core/state is tabled with its counterpart; submission handlers debit the value they record; blockRewards debits the rewards pool iff it adds the same amount to the total; buyGas and refundGas price gas with the same GasPrice")
 	c.Min(15)
 	c07P4(c, w)
+}
+
+// stalePreImages is the STALE-AFTER-REPLACE rule shared by C07.P1 and C08.V6.
+func stalePreImages(c *Ctx, w *World, upd *types.Func, consequence string) {
+	var fns []*ssa.Function
+	for _, p := range []string{"staking", "core/state", "core"} {
+		for _, fn := range w.FuncsIn(p) {
+			if !strings.HasSuffix(w.fileOf(fn.Pos()), "_test.go") {
+				fns = append(fns, fn)
+			}
+		}
+	}
+	sum := replaceSummary(w, upd, fns)
+	var sumNames []string
+	for fn, ps := range sum {
+		for i := range ps {
+			sumNames = append(sumNames, fmt.Sprintf("%s(param %d)", fname(fn), i))
+		}
+	}
+	sort.Strings(sumNames)
+	c.Note("functions that replace a parameter: %s", strings.Join(sumNames, ", "))
+	for _, fn := range fns {
+		type use struct {
+			ci  ssa.CallInstruction
+			pre ssa.Value
+		}
+		var uses []use
+		for _, ci := range callInstrs(fn) {
+			for _, pre := range preImages(ci, upd, sum) {
+				uses = append(uses, use{ci, stripConv(pre)})
+			}
+		}
+		if len(uses) == 0 {
+			continue
+		}
+		c.sawFunc(fname(fn))
+		for i, u := range uses {
+			c.sites++
+			stale := ""
+			for j, v := range uses {
+				if i == j && !inLoop(u.ci) {
+					continue
+				}
+				if u.pre != v.pre {
+					continue
+				}
+				if i == j {
+					// the same site in a loop with a loop-invariant pre-image
+					if reachesWithoutRedefinition(u.ci, u.ci, u.pre) && !sameBlockAfterDef(u.ci, u.pre) {
+						stale = "is replaced again by the same call on the next iteration"
+					}
+					continue
+				}
+				if reachesWithoutRedefinition(v.ci, u.ci, u.pre) {
+					stale = "was already replaced at " + w.Pos(v.ci.Pos()) + " (" + calleeName(v.ci) + ")"
+				}
+			}
+			key := fmt.Sprintf("%s#%s@%s", fname(fn), calleeName(u.ci), siteOrdinal(fn, u.ci, ""))
+			c.Check(key, u.ci.Pos(), stale == "", ifelse(stale == "", "the pre-image is replaced once on every path", "the validator record used here as pre-image "+stale+": "+consequence))
+		}
+	}
 }
 
 func calleeName(ci ssa.CallInstruction) string {
